@@ -93,6 +93,32 @@ def run(ctx, res):
         if lit is None or sw["true"] is None:
             continue
         arms[lit] = (sw["bb"], sw["true"], sw["false"])
+    # arms selected by a predicate on the method other than equality with a literal (`method.starts_with("$/")`, a helper
+    # taking the method): such an arm covers methods this table does not know, so it is held to the request shape --
+    # answer exactly once iff an id is present
+    method_roots = set()
+    for sw in D.bool_switches(f):
+        r = sw["root"]
+        if r[0] == "call" and (M.callee_name(r[2]) or "").endswith("PartialEq for str>::eq"):
+            for a in r[2]["args"]:
+                if const_str(f, a) is None:
+                    rr = f.root_of(a, through_named=True)
+                    if rr[0] == "place":
+                        method_roots.add((rr[1]["l"], json.dumps(rr[1]["p"], sort_keys=True)))
+    n_pat = 0
+    for sw in D.bool_switches(f):
+        r = sw["root"]
+        if r[0] != "call" or (M.callee_name(r[2]) or "").endswith("PartialEq for str>::eq") or sw["true"] is None:
+            continue
+        on_method = False
+        for a in r[2]["args"]:
+            rr = f.root_of(a, through_named=True)
+            if rr[0] == "place" and (rr[1]["l"], json.dumps(rr[1]["p"], sort_keys=True)) in method_roots:
+                on_method = True
+        if on_method:
+            n_pat += 1
+            arms["<%s(method, ..)>#%d" % ((M.callee_name(r[2]) or "?").split("::")[-1].split("<")[0] or "pred", n_pat)] = (sw["bb"], sw["true"], sw["false"])
+    res.extra["method_pattern_arms"] = n_pat
     for m in REQUESTS + NOTIFICATIONS:
         if m not in arms:
             res.bad("ARM-SHAPE", "lsp::handle_message # arm-missing # " + m, "no arm compares the method with %r" % m, f.loc())
@@ -106,6 +132,9 @@ def run(ctx, res):
                         "the arm for notification %r pushes an id-carrying response" % m, f.loc(f.blocks[min(pushes)]["term"].get("fn_span")))
             else:
                 res.ok("ARM-SHAPE", "notification %s: no response" % m)
+            continue
+        if m.startswith("<") and any(o != m and osb in region for o, (osb, _t, _f) in arms.items()):
+            res.ok("ARM-SHAPE", "%s: a grouping test, its nested arms are judged one by one" % m)
             continue
         sws = [x for x in ids if x["bb"] in region or x["bb"] == tt]
         if len(sws) != 1 or sws[0]["some"] is None:
@@ -168,6 +197,55 @@ def run(ctx, res):
             res.ok("ARM-SHAPE", "%s pushes at most once, and only the serialisation-error path pushes nothing" % nm)
         else:
             res.bad("ARM-SHAPE", nm + " # push-count # %s" % (r2,), "%s pushes %s messages" % (nm, r2), h.loc())
+    # ---- FRAME-LENGTH: the number written after `Content-Length:` is the byte length of the body written after it (a char
+    # count is smaller for any message with a non-ASCII character: the client cuts the body short and the rest of the
+    # stream, i.e. every later response, is misframed)
+    from .. import units as U
+    n_hdr = 0
+    for p_, g in sorted(P.funcs.items()):
+        if not p_.startswith("lsp::") or "Content-Length" not in json.dumps(g.blocks):
+            continue
+        shown = [(bi, t) for bi, t in g.calls() if (M.callee_name(t) or "").endswith("Argument::<'_>::new_display")
+                 and any(x in str((t.get("argtys") or [""])[0]) for x in ("usize", "u64", "u32", "i64", "i32"))]
+        if not shown:
+            continue     # a reader of the header
+        us, _sinks = U.analyse(g, P)
+        written = set()
+        for bi, t in g.calls():
+            if (M.callee_name(t) or "").endswith(("String::as_bytes", "str>::as_bytes")) and t["args"]:
+                rr = g.root_of(t["args"][0], through_named=True)
+                if rr[0] == "place":
+                    written.add(rr[1]["l"])
+        for bi, t in shown:
+            n_hdr += 1
+            rr = g.root_of(t["args"][0])
+            for _ in range(3):
+                # format_args! bundles its arguments in a tuple of references first
+                if rr[0] == "place" and rr[1]["p"] and isinstance(rr[1]["p"][0], dict) and "f" in rr[1]["p"][0]:
+                    d0 = g.single_def(rr[1]["l"])
+                    if d0 and d0[1] != "term" and d0[2]["rv"]["k"] == "agg" and rr[1]["p"][0]["f"] < len(d0[2]["rv"]["ops"]):
+                        rr = g.root_of(d0[2]["rv"]["ops"][rr[1]["p"][0]["f"]])
+                        continue
+                break
+            l = rr[1]["l"] if rr[0] == "place" else (rr[2]["dest"]["l"] if rr[0] == "call" else None)
+            uu = set(us.get(l, set())) if l is not None else set()
+            key = "%s # Content-Length value" % p_
+            if uu != {U.BYTE}:
+                res.bad("FRAME-LENGTH", key + " # " + (",".join(sorted(uu)) or "unknown unit"),
+                        "%s writes a Content-Length that is %s, not the byte length of the body: for a message with a non-ASCII character "
+                        "the client reads a short body and every later message is misframed" % (p_, ("a %s count" % "/".join(sorted(uu))) if uu else "not derived from str::len / String::len"),
+                        g.loc(t.get("span")))
+                continue
+            d = g.single_def(l)
+            same = None
+            if d and d[1] == "term" and d[2]["args"]:
+                r2 = g.root_of(d[2]["args"][0], through_named=True)
+                same = r2[0] == "place" and (not written or r2[1]["l"] in written)
+            if same is False:
+                res.bad("FRAME-LENGTH", key + " # other text", "%s measures one string and writes another" % p_, g.loc(t.get("span")))
+            else:
+                res.ok("FRAME-LENGTH", key + ": byte length of the text that is written")
+    res.floor("FRAME-LENGTH", "Content-Length headers written in lsp::", n_hdr, 1)
     # ---- LOOP-LIVENESS
     rl = P.require_fn("lsp::run_lsp")
     loops = D.natural_loops(rl)
